@@ -465,6 +465,13 @@ class Effects:
 
     def _origin_facts(self, name: str, val: ast.AST, fi: FuncInfo, st: State) -> None:
         """facts established by the defining expression of a local"""
+        if isinstance(val, ast.Name):
+            # y = x: what is known about x's length / type / bounds holds for y
+            import re
+            pat = re.compile(r"(?<![\w.])" + re.escape(val.id) + r"(?![\w])")
+            for f in list(st.facts):
+                if pat.search(f):
+                    st.facts.add(pat.sub(name, f))
         if isinstance(val, ast.Call):
             fn = val.func
             # exact-read helper: len(result) == arg
